@@ -39,7 +39,7 @@ theorem load_nil_implies_installed (U : Unsupported) (filter : Filter) (w w' : W
     have hs : Gen.seccomp U 1 filter.flag (mkFprog (.prog p)) (preInstall filter w) =
         (GoErr.nil, (Gen.seccomp U 1 filter.flag (mkFprog (.prog p)) (preInstall filter w)).2) := by
       rw [← hnil]
-    obtain ⟨q, hq, _, _, _, _, hw⟩ := gen_seccomp_nil hs
+    obtain ⟨q, hq, _, _, _, _, _, hw⟩ := gen_seccomp_nil hs
     have hqid : q.id = p.id := by
       simp only [mkFprog, Option.some.injEq] at hq; rw [← hq]
     subst h2
@@ -85,7 +85,8 @@ theorem failed_load_attaches_nothing (U : Unsupported) (filter : Filter) (w : Wo
     exact preInstall_filters filter w t
 
 /-- **Every way the kernel declines is reported**: unknown flag bits, a program the verifier rejects
-    (or of length 0 / above 4096 after the 16-bit length field), missing privilege (no no_new_privs on
+    (or of length 0 / above 4096 after the 16-bit length field), a kernel without the seccomp
+    syscall (ENOSYS), missing privilege (no no_new_privs on
     the calling thread and no CAP_SYS_ADMIN), and a thread-sync refused because another thread carries a
     chain that is not an ancestor of the caller's — each gives a non-nil error. -/
 theorem kernel_refusal_is_error (U : Unsupported) (filter : Filter) (p : Prog) (hp : filter.policy = .prog p)
@@ -94,22 +95,24 @@ theorem kernel_refusal_is_error (U : Unsupported) (filter : Filter) (p : Prog) (
       p.ok = false ∨ p.len % 65536 = 0 ∨ p.len % 65536 > BPF_MAXINSNS ∨
       (((preInstall filter w).thr (callThread filter w)).nnp = false ∧ w.privileged = false) ∨
       (filter.flag &&& FLAG_TSYNC ≠ 0 ∧ ∃ t ∈ w.live, t ≠ callThread filter w ∧
-        (w.thr t).filters.isSuffixOf (w.thr (callThread filter w)).filters = false)) :
+        (w.thr t).filters.isSuffixOf (w.thr (callThread filter w)).filters = false) ∨
+      w.seccompAvailable = false) :
     (Gen.loadFilter U filter w).1 ≠ GoErr.nil := by
   obtain ⟨msg, hmsg, heq⟩ := gen_loadFilter_prog U filter p hp w
   rw [heq]
   simp only
   have hd : (Gen.seccomp U 1 filter.flag (mkFprog (.prog p)) (preInstall filter w)).1 ≠ GoErr.nil := by
     apply gen_seccomp_declines
-    rcases hwhy with h | h | h | h | ⟨h1, h2⟩ | ⟨h1, t, ht, htc, hdiv⟩
+    rcases hwhy with h | h | h | h | ⟨h1, h2⟩ | ⟨h1, t, ht, htc, hdiv⟩ | hna
     · exact .inl h
     · exact .inr (.inr (.inl ⟨_, rfl, .inl h⟩))
     · exact .inr (.inr (.inl ⟨_, rfl, .inr (.inl h)⟩))
     · exact .inr (.inr (.inl ⟨_, rfl, .inr (.inr h)⟩))
     · refine .inr (.inr (.inr (.inl ⟨?_, by rw [preInstall_priv]; exact h2⟩)))
       simpa [schedStep_thr, callThread] using h1
-    · refine .inr (.inr (.inr (.inr ⟨h1, t, by rw [preInstall_live]; exact ht, htc, ?_⟩)))
+    · refine .inr (.inr (.inr (.inr (.inl ⟨h1, t, by rw [preInstall_live]; exact ht, htc, ?_⟩))))
       rw [preInstall_filters, preInstall_filters]; exact hdiv
+    · exact .inr (.inr (.inr (.inr (.inr (by rw [preInstall_avail]; exact hna)))))
   rw [if_pos hd]
   exact hmsg _
 
@@ -121,11 +124,15 @@ theorem failed_assemble_leaves_nothing (U : Unsupported) (filter : Filter) (w : 
   gen_loadFilter_noprog U filter (by rcases hp with h | h <;> simp [h]) w
 
 /-- **Probing for support never changes process state**: `Supported()` issues strict mode with flags 1,
-    which the kernel answers EINVAL; it reports true and no thread's state is touched. -/
+    which a kernel that has the
+    syscall answers EINVAL (and one that has not, ENOSYS): it reports exactly whether the syscall exists, and no
+    thread's state is touched. -/
 theorem probe_pure (U : Unsupported) (w : World) :
-    (Gen.supported U w).1 = true ∧ (Gen.supported U w).2.thr = w.thr ∧ (Gen.supported U w).2.live = w.live := by
+    (Gen.supported U w).1 = w.seccompAvailable ∧ (Gen.supported U w).2.thr = w.thr ∧
+      (Gen.supported U w).2.live = w.live := by
   unfold Gen.supported Gen.seccomp sysSeccomp
-  simp [SECCOMP_SET_MODE_STRICT, EINVAL, schedStep_thr, schedStep_live]
+  cases ha : w.seccompAvailable <;>
+    simp [SECCOMP_SET_MODE_STRICT, EINVAL, ENOSYS, schedStep_thr, schedStep_live, schedStep_avail, ha]
 
 /-- **Tie between the regenerated loader and the specification used by the live correspondence**: for
     every filter, world, schedule and `U`, `Gen.loadFilter` leaves the world `LoaderSpec.load` leaves
